@@ -63,6 +63,7 @@ type StreamPlan struct {
 	BadType   byte   // unsupported event type
 	SeqDelta  int    // bad-seq: +1 (skipped) or -1 (repeated)
 	Heartbeat int    // 1/n chance of a heartbeat at each unit boundary (0 = none)
+	HeartbeatAnywhere bool // also between the events of a unit (1/4n each)
 	hbSeed    uint64
 }
 
@@ -335,6 +336,11 @@ func (m *simMaster) startDump(d *DumpReq, seq byte) {
 			}
 			if m.plan.Heartbeat > 0 && e.Unit != lastUnit && e.Unit >= 0 && e.Offset == h.Units[e.Unit].Start {
 				if hb.next()%uint64(m.plan.Heartbeat) == 0 {
+					add(m.heartbeat(file.Name, e.Offset), nil, "heartbeat")
+				}
+			} else if m.plan.Heartbeat > 0 && m.plan.HeartbeatAnywhere && e.Unit >= 0 && e.Offset > start {
+				// a slow master: heartbeats between any two events, also inside a transaction
+				if hb.next()%uint64(m.plan.Heartbeat*4) == 0 {
 					add(m.heartbeat(file.Name, e.Offset), nil, "heartbeat")
 				}
 			}
